@@ -194,6 +194,32 @@ def correspondence(rep, ctx):
                                 fail(desc, "raised ZeroDivisionError")
                         except Exception as e:  # noqa: BLE001
                             fail(desc, f"raised {type(e).__name__}: {e}")
+        # both classes x every (xscale, yscale) combination of plot, deterministically
+        for C in (rd.Inventory, rd.InventoryHP):
+            for xs in ("linear", "log"):
+                for ys in ("linear", "log"):
+                    inv = C({"Sr-90": 2.0e6}, "num")
+                    desc = f"{C.__name__}.plot(xscale={xs}, yscale={ys})"
+                    rep.case(("scales", C.__name__, xs, ys))
+                    rep.dist("plot:scale-combos")
+                    fig, ax = inv.plot(50.0, "y", xscale=xs, yscale=ys, yunits="mmol", npoints=4)
+                    plt.close(fig)
+                    kw = dict(captured)
+                    lo = 0.0 if xs == "linear" else 0.1
+                    if kw["xscale"] != xs or kw["yscale"] != ys or ax.get_xscale() != xs or ax.get_yscale() != ys:
+                        fail(desc, f"axes scales are x={ax.get_xscale()} y={ax.get_yscale()}")
+                        continue
+                    if not grid_ok(kw["time_points"], lo, 50.0, 4, xs):
+                        fail(desc, f"time grid {list(kw['time_points'])} is not the {xs} grid from {lo} to 50")
+                        continue
+                    ref = inv.decay(kw["time_points"][2], "y").moles("mmol")
+                    for ci, c in enumerate(kw["nuclides"]):
+                        if not same(kw["ydata"][ci][2], ref[c]):
+                            fail(desc, f"curve {c}: {kw['ydata'][ci][2]!r} vs decay(t).moles = {ref[c]!r}")
+                    yd = kw["ydata"]
+                    want0 = 0.95 * float(np.min(yd)) if ys == "log" else 0.0
+                    if not (kw["ylimits"][0] == want0 or same(kw["ylimits"][0], want0, 2)):
+                        fail(desc, f"lower y-limit {kw['ylimits'][0]!r}, expected {want0!r}")
         # explicit time arrays and refusals
         inv = rd.Inventory({"Mo-99": 1e6, "Sr-90": 2e6}, "num")
         arr = np.array([0.0, 1.5, 2.25, 1000.0, 3.0])
